@@ -180,6 +180,14 @@ class Sub:
             r = act()
             if hasattr(r, "__await__"):
                 await r   # e.g. a command submitted from inside the callback
+        if self.raises == "cancelled":
+            # application code that awaits something of its own which was cancelled: the
+            # callback ends with CancelledError (the client's task is not being cancelled)
+            fut = asyncio.get_running_loop().create_future()
+            fut.cancel()
+            await fut
+        if self.raises == "timeout":
+            raise TimeoutError(f"subscriber {self.name} timed out")
         if self.raises:
             raise RuntimeError(f"subscriber {self.name} fails")
 
